@@ -22,7 +22,7 @@ pub const LEXEMES: &[&str] = &[
     "a", "b", "A", "T", "x_1", "_", "__", "id", "table0", "+", "-", "0", "1", "42", "007", "1_000", "1__0", "0_", "_0", "255", "256",
     "65535", "65536", "4294967295", "4294967296", "18446744073709551615", "18446744073709551616",
     "340282366920938463463374607431768211456", "1234567890123456789012345678901234567890", "0x0", "0xff", "0xFF", "0XFF", "0X1f",
-    "0x_1", "0x1_f", "0xffffffff", "0x100000000", "0Xffffffff", "0xg", "0x", "0X", "1.", ".5", ".", "1.5", "1e3", "1e+3", "1e-3", "1e",
+    "0x_1", "0x1_f", "0x_", "0X__", "0x___", "0x_g", "-0x_", "0x1__", "0x_f_", "0xffffffff", "0x100000000", "0Xffffffff", "0xg", "0x", "0X", "1.", ".5", ".", "1.5", "1e3", "1e+3", "1e-3", "1e",
     "1e+", "1E400", "1e400", "-1e400", "0.0", "-0.0", "1_0.5", "1.5e3_0", "1._5", "\"\"", "\"a\"", "\"a b\"", "\"\\n\"", "\"\\t\"",
     "\"\\\\\"", "\"\\\"\"", "\"\\'\"", "\"\\0\"", "\"\\q\"", "\"\\u{41}\"", "\"\\u{0}\"", "\"\\u{10ffff}\"", "\"\\u{110000}\"",
     "\"\\u{d800}\"", "\"\\u{4_1}\"", "\"\\u{_41}\"", "\"\\u{}\"", "\"\\u{ffffffffff}\"", "\"\\u41\"", "\"\\41\"", "\"\\ff\"", "\"\\fg\"",
@@ -52,7 +52,7 @@ fn template(e: &mut Ent) -> String {
     let num = |e: &mut Ent| -> String {
         (*e.pick(&[
             "0", "1", "42", "4294967294", "4294967295", "4294967296", "0xffffffff", "0XFFFFFFFF", "0xfffffffe", "0x100000000", "1_0",
-            "007", "0X1F", "0x1F", "18446744073709551616", "255", "256", "-1", "+1", "-0", "1e3", "1.5", ".5", "1.", "0x1p3",
+            "007", "0X1F", "0x1F", "0x_", "0X__", "0x_1", "0x1_", "1__0", "_1", "1_", "18446744073709551616", "255", "256", "-1", "+1", "-0", "1e3", "1.5", ".5", "1.", "0x1p3",
         ]))
         .to_string()
     };
